@@ -79,6 +79,24 @@ if __name__ == "__main__":
                 tw["params"]["k"] = min(tw["params"]["k"], 2)
             p[tier] = p[tier] + [tw]
 
+    # solver cross-check (thorough tier): the smallest quick run again under z3,
+    # z3 5.1 and cvc5; the three explorations must agree path for path
+    for pid, p in PROPS.items():
+        small = min((r for r in p["quick"] if not r.get("expect")), key=lambda r: (r.get("budget_s", 0), len(json.dumps(r))))
+        small = p["quick"][0]
+        for solver in ("", "z3-new", "cvc5"):
+            cc = json.loads(json.dumps(small))
+            cc["solver"] = solver
+            cc["budget_s"] = 1800
+            cc["note"] = "solver cross-check run (%s)" % (solver or "z3")
+            # keep the cross-check small
+            cc["params"]["nmax"] = min(cc["params"].get("nmax", 1), 1)
+            cc["params"]["nmin"] = min(cc["params"].get("nmin", 0), cc["params"]["nmax"])
+            if "k" in cc["params"]:
+                cc["params"]["k"] = min(cc["params"]["k"], 3)
+            cc.pop("covers", None)
+            p["thorough"] = p["thorough"] + [cc]
+
     bounds = {}
     for pid, p in sorted(PROPS.items()):
         bounds[pid] = {"quick": {"runs": p["quick"]}, "thorough": {"runs": p["thorough"]},
